@@ -605,7 +605,7 @@ fn check_state_sweep(case: &Value, obs: &mut Obs) -> Result<(), String> {
 }
 
 fn fixed_state_sweeps() -> Vec<Value> {
-    sweep_cases(3, 160)
+    sweep_cases(3, 300)
 }
 
 pub fn property() -> Property {
@@ -614,7 +614,7 @@ pub fn property() -> Property {
         subs: vec![
             Sub {
                 name: "state_sweep",
-                about: "accumulated state: for every W in 1..160 and each kind of keyed work of this operator family (distinct dotted paths, indexed paths with per-item defaults, escaped-dot keys), W hot items are evaluated twice, then a new item, the hot set again, another new item, and everything in reverse; every call against the reference model - a cache, pool or table with any capacity up to 160 is driven exactly over its boundary.",
+                about: "accumulated state: for every W in 1..300 and each kind of keyed work of this operator family (distinct dotted paths, indexed paths with per-item defaults, escaped-dot keys), W hot items are evaluated twice, then a new item, the hot set again, another new item, and everything in reverse; every call against the reference model - a cache, pool or table with any capacity up to 300 is driven exactly over its boundary.",
                 nontrivial: "every case.",
                 strategy: None,
                 fixed: Some(fixed_state_sweeps),
